@@ -13,7 +13,8 @@ Record osect := OSect {
   o_extent : option Z;                            (* Some e: DelimitedType.extent as declared *)
   o_doc : text;
   o_fields : list (text * text * text);           (* str(data_type), name ("" for padding), doc *)
-  o_consts : list (text * text * text * text)     (* str(data_type), name, str(value), doc *)
+  o_consts : list (text * text * text * text);    (* str(data_type), name, str(value), doc *)
+  o_attrs : list text                             (* names in the order of CompositeType.attributes *)
 }.
 Record oobs := OObs { o_deprecated : bool; o_req : osect; o_resp : option osect }.
 Inductive iobs := IOk (o : oobs) | IErr.
@@ -32,8 +33,12 @@ Definition view_const (ad : attr tyx text * text) : text * text * text * text :=
   | AField t n => (ty_str t, n, [], snd ad)
   | APad t => (ty_str t, [], [], snd ad)
   end.
+Definition attr_name (ad : attr tyx text * text) : text :=
+  match fst ad with AField _ n => n | APad _ => [] | AConst _ n _ => n end.
+(* DataSchemaBuilder.attributes: fields, then constants *)
 Definition view_sect (k : sect tyx text) : osect :=
-  OSect (k_union _ _ k) (k_extent _ _ k) (k_doc _ _ k) (map view_field (k_fields _ _ k)) (map view_const (k_consts _ _ k)).
+  OSect (k_union _ _ k) (k_extent _ _ k) (k_doc _ _ k) (map view_field (k_fields _ _ k)) (map view_const (k_consts _ _ k))
+        (map attr_name (k_fields _ _ k ++ k_consts _ _ k)).
 Definition view (m : xmodel) : oobs :=
   OObs (m_deprecated _ _ m) (view_sect (m_req _ _ m)) (option_map view_sect (m_resp _ _ m)).
 
@@ -61,7 +66,7 @@ Definition c4eqb (a b : text * text * text * text) : bool :=
   match a, b with (a1, a2, a3, a4), (b1, b2, b3, b4) => text_eqb a1 b1 && text_eqb a2 b2 && text_eqb a3 b3 && text_eqb a4 b4 end.
 Definition osect_eqb (a b : osect) : bool :=
   Bool.eqb (o_union a) (o_union b) && oeqb Z.eqb (o_extent a) (o_extent b) && text_eqb (o_doc a) (o_doc b)
-  && leqb f3eqb (o_fields a) (o_fields b) && leqb c4eqb (o_consts a) (o_consts b).
+  && leqb f3eqb (o_fields a) (o_fields b) && leqb c4eqb (o_consts a) (o_consts b) && leqb text_eqb (o_attrs a) (o_attrs b).
 Definition oobs_eqb (a b : oobs) : bool :=
   Bool.eqb (o_deprecated a) (o_deprecated b) && osect_eqb (o_req a) (o_req b) && oeqb osect_eqb (o_resp a) (o_resp b).
 
